@@ -58,7 +58,7 @@ def run(ctx):
         if not rep:
             ctx.assumptions.append("literal rewrite found no site: handler-level histories are single-record")
         archp = ctx.write_ndjson("arch.ndjson", arch_cases)
-        ov2 = ctx.overlay(main_files=["helpers_test.go", "arch_test.go", "rpc_test.go", "c07_test.go"], replace=rep)
+        ov2 = ctx.overlay(main_files=["helpers_test.go", "arch_test.go", "rpc_test.go", "c07_test.go", "c10_test.go"], replace=rep)
         bm = ctx.go_build(".", ov2, name="main_c07")
         hobs = ctx.go_run(bm, "^TestVerifC07Handler$", cases=archp, out="obs_handler.ndjson", timeout_s=3400)
         obs += hobs
